@@ -308,7 +308,187 @@ def check_incdec(ctx, op, wa, a, log=32):
         ctx.validate(k, [[0x300000000, x] for x in vecs(a)])
 
 
+# ------------------------------------------------------------------ floating-point operands
+# Operands travel as IEEE bit patterns in integer registers (the native driver passes integers); NaN results are
+# canonicalised inside both the kernel and the reference so that payload bits (unspecified) never matter.
+FTYPES = {"f": ("float", "uint32_t", 32), "d": ("double", "uint64_t", 64), "i": ("int", "int", 32)}
+FHELP = '''
+static inline float fl_f(uint32_t b) { float f; __builtin_memcpy(&f, &b, 4); return f; }
+static inline double fl_d(uint64_t b) { double f; __builtin_memcpy(&f, &b, 8); return f; }
+static inline int fl_i(int b) { return b; }
+static inline uint64_t bits(float f) { if (f != f) return 0x7fc00000u; uint32_t b; __builtin_memcpy(&b, &f, 4); return b; }
+static inline uint64_t bits(double f) { if (f != f) return 0x7ff8000000000000ull; uint64_t b; __builtin_memcpy(&b, &f, 8); return b; }
+'''
+FARITH = [("add", "+"), ("sub", "-"), ("mul", "*"), ("div", "/")]
+FCOMBOS = [("t", "t"), ("t", "p"), ("p", "t"), ("tv", "t"), ("tv", "p"), ("t", "tv")]
+
+
+def f_operand(w, ft, nm):
+    cxx, ity, _ = FTYPES[ft]
+    if w == "tv":
+        return ("uint64_t c%s" % nm, "auto p%s = mk_tainted<%s*, S>(c%s); auto& x%s = *p%s;" % (nm, cxx, nm, nm, nm), "x" + nm)
+    if w == "t":
+        return ("%s %s" % (ity, nm), "tainted<%s, S> x%s = fl_%s(%s);" % (cxx, nm, ft, nm), "x" + nm)
+    return ("%s %s" % (ity, nm), "", "fl_%s(%s)" % (ft, nm))
+
+
+def f_src(kind, op, sym, wa, fa, wb, fb):
+    da, pa, ea = f_operand(wa, fa, "a")
+    db, pb, eb = f_operand(wb, fb, "b")
+    nm = "k_f%s_%s_%s%s_%s%s" % (kind, op, wa, fa, wb, fb)
+    plain = "(std::declval<%s>() %s std::declval<%s>())" % (FTYPES[fa][0], sym, FTYPES[fb][0])
+    if kind == "ar":
+        ty = "std::is_same_v<decltype(r), tainted<decltype%s, S>>" % plain
+        un = "bits(r.UNSAFE_unverified())"
+    else:
+        ty = "std::is_same_v<decltype(r), %s>" % ("tainted_boolean_hint" if "tv" in (wa, wb) else "tainted<bool, S>")
+        un = "unwrapb(r)"
+    return ("K uint64_t %s(uint64_t base, %s, %s) { S::g_base = base; %s %s auto r = %s %s %s; env_log(7, %s, 0, 0); return %s; }"
+            % (nm, da, db, pa, pb, ea, sym, eb, ty, un))
+
+
+def f_ref(kind, op, sym, fa, fb):
+    r = "fl_%s(a) %s fl_%s(b)" % (fa, sym, fb)
+    return "K uint64_t r_f%s_%s_%s%s(%s a, %s b) { return %s; }" % (kind, op, fa, fb, FTYPES[fa][1], FTYPES[fb][1], ("bits(%s)" % r) if kind == "ar" else ("(uint64_t)(%s)" % r))
+
+
+def f_src_unary(wa, fa):
+    da, pa, ea = f_operand(wa, fa, "a")
+    return ("K uint64_t k_fun_neg_%s%s(uint64_t base, %s) { S::g_base = base; %s auto r = -%s; env_log(7, std::is_same_v<decltype(r), tainted<%s, S>>, 0, 0); "
+            "return bits(r.UNSAFE_unverified()); }" % (wa, fa, da, pa, ea, FTYPES[fa][0]))
+
+
+def f_src_compound(op, sym, wa, fa, wb, fb):
+    da, pa, ea = f_operand(wa, fa, "a")
+    db, pb, eb = f_operand(wb, fb, "b")
+    return ("K uint64_t k_fca_%s_%s%s_%s%s(uint64_t base, %s, %s) { S::g_base = base; %s %s auto&& r = (%s %s= %s); "
+            "env_log(7, (uint64_t)(std::is_lvalue_reference_v<decltype(%s %s= %s)> && std::addressof(r) == std::addressof(%s)), 0, 0); return bits(%s.UNSAFE_unverified()); }"
+            % (op, wa, fa, wb, fb, da, db, pa, pb, ea, sym, eb, ea, sym, eb, ea, ea))
+
+
+def check_float_unary(ctx, wa, fa, log=32):
+    base = ctx.sandbox_base(log)
+    ka, va = f_sym_operand(ctx, wa, fa, "a", base, 1 << log)
+    kp, rp = run_pair(ctx, "k_fun_neg_%s%s" % (wa, fa), [base, ka], "r_fun_neg_%s" % fa, [va])
+
+    def cond(p, q):
+        if q.status != "ret" or p.status != "ret":
+            return z3.BoolVal(False)
+        lg = p.user.get("log") or []
+        return z3.And(p.ret == q.ret, z3.BoolVal(len(lg) == 1 and lg[0][1] == 1))
+    cross(ctx, kp, rp, "same value and C++ type as the plain expression (-a)", cond)
+    ctx.expect(kp, ret=1)
+    if wa != "tv":
+        ctx.validate("k_fun_neg_%s%s" % (wa, fa), [[0x300000000, x] for x in FVEC[FTYPES[fa][2]]])
+        ctx.validate("r_fun_neg_%s" % fa, [[x] for x in FVEC[FTYPES[fa][2]]])
+
+
+def check_float_compound(ctx, op, wa, fa, wb, fb, log=32):
+    base = ctx.sandbox_base(log)
+    size = 1 << log
+    ka, va = f_sym_operand(ctx, wa, fa, "a", base, size)
+    kb, vb = f_sym_operand(ctx, wb, fb, "b", base, size)
+    if wa == "tv" and wb == "tv":
+        ctx.assume(ka != kb)
+    k = "k_fca_%s_%s%s_%s%s" % (op, wa, fa, wb, fb)
+    kp, rp = run_pair(ctx, k, [base, ka, kb], "r_fca_%s_%s%s" % (op, fa, fb), [va, vb])
+    n = FTYPES[fa][2]
+
+    def cond(p, q):
+        if q.status != "ret" or p.status != "ret":
+            return z3.BoolVal(False)
+        lg = p.user.get("log") or []
+        c_ = z3.And(p.ret == q.ret, z3.BoolVal(len(lg) == 1 and lg[0][1] == 1))
+        if wa == "tv":
+            # the operand object in sandbox memory holds the new value (NaN payloads aside)
+            stored = z3.Concat(*[z3.Select(p.mem, ka + BV(i, 64)) for i in reversed(range(n // 8))])
+            isnan = z3.fpIsNaN(z3.fpBVToFP(stored, ctx.eng.FSORT[n]))
+            qn = z3.fpIsNaN(z3.fpBVToFP(z3.Extract(n - 1, 0, q.ret), ctx.eng.FSORT[n]))
+            c_ = z3.And(c_, z3.Or(z3.And(isnan, qn), z3.ZeroExt(64 - n, stored) == q.ret))
+        return c_
+    cross(ctx, kp, rp, "a %s= b updates the operand and yields it, like the plain floating-point expression" % op, cond)
+    ctx.expect(kp, ret=1)
+    if "tv" not in (wa, wb):
+        vv = [[x, y] for x in FVEC[FTYPES[fa][2]] for y in FVEC[FTYPES[fb][2]]]
+        ctx.validate(k, [[0x300000000] + v for v in vv])
+        ctx.validate("r_fca_%s_%s%s" % (op, fa, fb), vv)
+
+
+def f_sym_operand(ctx, w, ft, nm, base, size):
+    n = FTYPES[ft][2]
+    if w == "tv":
+        c_ = ctx.sym("c" + nm, 64)
+        ctx.assume(z3.UGE(c_, base), z3.ULE(c_ - base, BV(size - 8, 64)))
+        mem0 = ctx.eng.initial_memory()
+        return c_, z3.Concat(*[z3.Select(mem0, c_ + BV(i, 64)) for i in reversed(range(n // 8))])
+    v = ctx.sym(nm, n)
+    return v, v
+
+
+FVEC = {32: [0x3f800000, 0xc0200000, 0x7fc00000, 0x00000000, 0x80000000, 0x7f800000, 0x00000001],
+        64: [0x3ff0000000000000, 0xc004000000000000, 0x7ff8000000000000, 0, 0x8000000000000000, 0x7ff0000000000000, 1]}
+
+
+def check_float(ctx, kind, op, wa, fa, wb, fb, log=32):
+    base = ctx.sandbox_base(log)
+    size = 1 << log
+    ka, va = f_sym_operand(ctx, wa, fa, "a", base, size)
+    kb, vb = f_sym_operand(ctx, wb, fb, "b", base, size)
+    k = "k_f%s_%s_%s%s_%s%s" % (kind, op, wa, fa, wb, fb)
+    r = "r_f%s_%s_%s%s" % (kind, op, fa, fb)
+    kp, rp = run_pair(ctx, k, [base, ka, kb], r, [va, vb])
+
+    def cond(p, q):
+        if q.status != "ret" or p.status != "ret":
+            return z3.BoolVal(False)
+        lg = p.user.get("log") or []
+        return z3.And(p.ret == q.ret, z3.BoolVal(len(lg) == 1 and lg[0][1] == 1))
+    cross(ctx, kp, rp, "same value (NaN operands included) and C++ type as the plain floating-point expression (a %s b)" % op, cond)
+    ctx.expect(kp, ret=1)
+    b0 = 0x300000000
+    if "tv" not in (wa, wb):
+        vv = [[x, y] for x in FVEC[FTYPES[fa][2]] for y in FVEC[FTYPES[fb][2]]]
+        ctx.validate(k, [[b0] + v for v in vv])
+        ctx.validate(r, vv)
+
+
+def float_jobs(tier):
+    out = []
+    fpairs = [("f", "f"), ("d", "d"), ("f", "d"), ("f", "i"), ("i", "d")] + ([("d", "f"), ("i", "f"), ("d", "i")] if tier == "thorough" else [])
+    for fa, fb in fpairs:
+        items = []
+        refs = [HELPERS, FHELP]
+        for kind, ops in (("cm", CMP), ("ar", FARITH)):
+            for op, sym in ops:
+                refs.append(f_ref(kind, op, sym, fa, fb))
+                for wa, wb in FCOMBOS:
+                    if kind == "ar" and tier != "thorough" and (wa, wb) not in (("t", "t"), ("tv", "p")):
+                        continue
+                    items.append((f_src(kind, op, sym, wa, fa, wb, fb),
+                                  dict(name="f%s %s%s %s %s%s" % (kind, wa, fa, op, wb, fb), fn=check_float, kw=dict(kind=kind, op=op, wa=wa, fa=fa, wb=wb, fb=fb))))
+        if fa != "i":
+            if fa == fb:
+                refs.append("K uint64_t r_fun_neg_%s(%s a) { return bits(-fl_%s(a)); }" % (fa, FTYPES[fa][1], fa))
+                for wa in ("t", "tv"):
+                    items.append((f_src_unary(wa, fa), dict(name="fun neg %s%s" % (wa, fa), fn=check_float_unary, kw=dict(wa=wa, fa=fa))))
+            for op, sym in (FARITH if tier == "thorough" else FARITH[:1] + FARITH[2:3]):
+                refs.append("K uint64_t r_fca_%s_%s%s(%s a, %s b) { auto x = fl_%s(a); x %s= fl_%s(b); return bits(x); }" % (op, fa, fb, FTYPES[fa][1], FTYPES[fb][1], fa, sym, fb))
+                for wa, wb in (("t", "p"), ("t", "t"), ("tv", "p"), ("tv", "t"), ("t", "tv")):
+                    if wa == "t" and fa == "f" and fb == "d":
+                        continue   # tainted<float> = tainted<double> does not compile (same rule as for the integer types)
+                    items.append((f_src_compound(op, sym, wa, fa, wb, fb), dict(name="fca %s%s %s= %s%s" % (wa, fa, op, wb, fb), fn=check_float_compound,
+                                                                              kw=dict(op=op, wa=wa, fa=fa, wb=wb, fb=fb))))
+        for gi, grp in enumerate([items[i::2] for i in range(2)]):
+            src = C.PRELUDE + "using S = B32;\n" + "\n".join(refs) + "\n" + "\n".join(s for s, _ in grp) + "\n"
+            out.append(Job("C16_float_%s%s_%d" % (fa, fb, gi), src, [c_ for _, c_ in grp], flags=["-fno-exceptions"]))
+    return out
+
+
 def jobs(tier, seed):
+    return int_jobs(tier, seed) + float_jobs(tier)
+
+
+def int_jobs(tier, seed):
     T = BYTAG
     pairs = [("int", "int"), ("uchar", "schar"), ("ullong", "int"), ("long", "uint"), ("short", "llong"), ("schar", "schar")]
     if tier == "thorough":
